@@ -294,6 +294,17 @@ def _replay(ctx):
             if rec.get("kind") == "in":
                 r, problems = _run_inbound(ctx.rng, rec["sizes"], tuple(rec["corrupt"]), rec["reads"])
                 return [(r, problems)]
+            if rec.get("kind") == "long-in":
+                nfr = int(rec["nfr"])
+                sizes = [ctx.rng.choice([1, 30, 57, 64]) for _ in range(nfr)]
+                total = sum(LENB + s + TAG for s in sizes)
+                r, problems = _run_inbound(ctx.rng, sizes, (0, "none"), [total // 3, total - total // 3])
+                if r["dead"] or (r["deliv"] and r["deliv"][-1] != nfr):
+                    problems.append(f"a clean stream of {nfr} frames: {r['deliv'][-1] if r['deliv'] else 0} frames decrypted, session dead={r['dead']}")
+                return [(r, problems)]
+            if rec.get("c0", 0) > 16:
+                # a request late in a long session: run a session that long
+                return (await _outbound([7] * (int(rec["c0"]) + 2), ctx.rng))[-3:]
             k = int(rec.get("pipelined", 1))
             lens = [rec["n"]] if rec.get("c0", 0) == 0 and k == 1 else [1024, rec["n"]]
             return await _outbound(lens, ctx.rng, pipeline=k)
@@ -413,7 +424,24 @@ def run(ctx):
                 ctx.case(("big", tuple(sizes), corrupt, tuple(reads)))
                 for pr in problems:
                     ctx.violation(f"inbound framing: {pr} (sizes={sizes}, corrupt={corrupt}, reads={reads})", rec)
+            # long sessions: more than 256 (and more than 512) frames in one direction - the frame counter leaves its first byte
+            for nfr in ([300, 700] if not ctx.thorough else [300, 700, 1500]):
+                sizes = [rng.choice([1, 30, 57, 64, rng.randrange(1, 90)]) for _ in range(nfr)]
+                total = sum(LENB + s + TAG for s in sizes)
+                cs = sorted(set(rng.randrange(1, total) for _ in range(40)))
+                pts = [0, *cs, total]
+                reads = [b - a for a, b in zip(pts, pts[1:])]
+                rec, problems = _run_inbound(rng, sizes, (0, "none"), reads)
+                ctx.case(("long-in", nfr))
+                if rec["dead"] or (rec["deliv"] and rec["deliv"][-1] != nfr):
+                    problems.append(f"a clean stream of {nfr} frames: {rec['deliv'][-1] if rec['deliv'] else 0} frames decrypted, session dead={rec['dead']}")
+                for pr in problems:
+                    ctx.violation(f"inbound framing, long session of {nfr} frames: {pr}", {"kind": "long-in", "nfr": nfr})
             # ---------------- outbound
+            for rec, problems in await _outbound([rng.choice([1, 7, 60]) for _ in range(ctx.pick(300, 700))], rng):
+                ctx.case(("long-out", rec["c0"]) if rec["c0"] in (0, 255, 256, 299) else None)
+                for pr in problems:
+                    ctx.violation(f"outbound framing, request #{rec['c0']} of a long session ({rec['n']} bytes): {pr}", rec)
             bnd = [1, 2, 1023, 1024, 1025, 2047, 2048, 2049, 3071, 3072, 3073, 5000]
             sessions = [bnd, list(reversed(bnd)), [1024, 1], [2048, 2048, 7], [3072, 1024, 1024, 5]]
             for _ in range(ctx.pick(12, 150)):
